@@ -216,10 +216,10 @@ def run(chk):
     chk.note_unit(m)
     # each of the four is a FUNCTION of its argument: nothing remembered from earlier calls may reach the result
     from .purity import check_no_static_influence
-    chk.rule("B4", "bitcnt / clz / ctz / ilog2 keep no state between calls: no value read from a mutable static object reaches the result or a branch")
+    chk.rule("B5", "bitcnt / clz / ctz / ilog2 keep no state between calls: no value read from a mutable static object reaches the result or a branch")
     for nm in ("bitcnt", "clz", "ctz", "ilog2"):
         if m.has_fn(nm):
-            check_no_static_influence(chk, "B4.stateless", m, m.fn(nm),
+            check_no_static_influence(chk, "B5.stateless", m, m.fn(nm),
                                       "the result then depends on the arguments of earlier calls, not only on x")
     decide(chk, "B1.bitcnt", "bitcnt", m, "bitcnt", 32, spec_popcount)
     decide(chk, "B1.clz", "clz", m, "clz", 32, spec_clz)
